@@ -37,6 +37,9 @@ type FlowDef struct {
 	// correlate-field values each side supplies ("" / 0 = empty)
 	CorrS Corr `json:"corr_s"`
 	CorrD Corr `json:"corr_d"`
+	// OmitEgress: the exporter's template has no egressNetworkPolicyRuleAction element (only used
+	// for flows that are ready at once and have no egress action to report)
+	OmitEgress bool `json:"omit_egress,omitempty"`
 }
 
 // Corr holds the correlate fields one node can supply about a flow.
@@ -162,6 +165,30 @@ func New(active, inactive time.Duration, ch chan *entities.Message, workers int)
 	return NewWith(active, inactive, ch, workers, Elements())
 }
 
+// ElementsVariant is Elements with the same content in another list order (the library finds the
+// elements by name; corresponding entries of the parallel lists stay at corresponding positions).
+// Variant 0 is Elements(); 1 names the destination node's end-time element before the source
+// node's; 2 reverses the statistics lists (the throughput lists are positional - forward first,
+// reverse second - and stay as they are); 3 does both.
+func ElementsVariant(v int) *intermediate.AggregationElements {
+	e := Elements()
+	rev := func(a []string) []string {
+		out := make([]string, len(a))
+		for i := range a {
+			out[len(a)-1-i] = a[i]
+		}
+		return out
+	}
+	if v&1 != 0 {
+		e.AntreaFlowEndSecondsElements = rev(e.AntreaFlowEndSecondsElements)
+	}
+	if v&2 != 0 {
+		e.StatsElements, e.AggregatedSourceStatsElements, e.AggregatedDestinationStatsElements = rev(e.StatsElements), rev(e.AggregatedSourceStatsElements), rev(e.AggregatedDestinationStatsElements)
+		e.NonStatsElements = rev(e.NonStatsElements)
+	}
+	return e
+}
+
 // NewWith is New with the AggregateElements setting given (nil: the process only correlates).
 func NewWith(active, inactive time.Duration, ch chan *entities.Message, workers int, els *intermediate.AggregationElements) *intermediate.AggregationProcess {
 	loadOnce.Do(registry.LoadRegistry) // LoadRegistry is start-up code, not safe to run concurrently
@@ -254,7 +281,9 @@ func RecordElements(f FlowDef, r Rec) []entities.InfoElementWithValue {
 	}
 	u16("destinationServicePort", c.SvcPort)
 	u8("ingressNetworkPolicyRuleAction", c.IngAct)
-	u8("egressNetworkPolicyRuleAction", c.EgrAct)
+	if !(f.OmitEgress && c.EgrAct == 0 && !f.NeedsCorrelation()) {
+		u8("egressNetworkPolicyRuleAction", c.EgrAct)
+	}
 	els = append(els, entities.NewSigned32InfoElement(IE("ingressNetworkPolicyRulePriority"), c.Priority))
 	if r.Incomplete {
 		for i, el := range els {
